@@ -159,19 +159,29 @@ class Patched:
         self.w = w
 
     def __enter__(self):
-        import sys
+        import sys, types
         from openfilter.filter_runtime import zeromq
+        import vlib
         self.zeromq = zeromq
-        self.saved = (zeromq.zmq, zeromq.time_ns, zeromq.sleep, zeromq.ZMQContext.context)
+        self.saved = (zeromq.zmq, zeromq.ZMQContext.context)
         zeromq.zmq = sys.modules[__name__]
-        zeromq.time_ns = time_ns
-        zeromq.sleep = sleep
         zeromq.ZMQContext.context = (None, 0)
         set_world(self.w)
+        # every clock the module can reach is the virtual one, however it was imported (a rewrite from time_ns() to
+        # monotonic_ns() or `import time` must neither crash the harness nor escape the virtual clock)
+        ft = vlib.FakeTime(time_ns, sleep, base_ns=0)
+        self.saved_names = {}
+        for name in ('time_ns', 'sleep', 'time', 'monotonic', 'monotonic_ns', 'perf_counter', 'perf_counter_ns'):
+            if hasattr(zeromq, name):
+                cur = getattr(zeromq, name)
+                self.saved_names[name] = cur
+                setattr(zeromq, name, ft if isinstance(cur, types.ModuleType) else getattr(ft, name))
         return self.w
 
     def __exit__(self, *a):
         z = self.zeromq
-        z.zmq, z.time_ns, z.sleep, z.ZMQContext.context = self.saved
+        z.zmq, z.ZMQContext.context = self.saved
+        for name, v in self.saved_names.items():
+            setattr(z, name, v)
         set_world(None)
         return False
